@@ -32,6 +32,30 @@ class Color(enum.IntEnum):
 KeyNT = namedtuple('KeyNT', ['a', 'b'])
 
 
+class EqFactory:
+    """a default factory that compares by value: two instances are == without being the same object"""
+
+    def __init__(self, v):
+        self.v = v
+
+    def __call__(self):
+        return self.v
+
+    def __eq__(self, other):
+        return type(other) is EqFactory and other.v == self.v
+
+    def __hash__(self):
+        return hash(('EqFactory', self.v))
+
+    def __repr__(self):
+        return f'EqFactory({self.v})'
+
+
+class Holder:
+    def make(self):
+        return 0
+
+
 class Leafy:
     """an opaque leaf with identity"""
     __slots__ = ('n',)
@@ -275,7 +299,7 @@ def check_C01(optree, seed):
 
 def check_C06(optree, seed):
     """`==` means same structure: equal treespecs have equal paths, equal hashes, and unflatten to equal trees"""
-    fails = []
+    fails = check_C06_factories(optree, seed)
     tree, info = build(seed)
     rng = random.Random(seed ^ 0x5eed)
     other = permuted(tree, rng)
@@ -311,6 +335,45 @@ def check_C06(optree, seed):
         elif same_structure and repr(a) == repr(b):
             fails.append({'key': 'exotic-ne-same', 'what': 'treespecs of the same structure (same repr, same paths) compare unequal',
                           'a': repr(a)[:200], 'info': info})
+    return fails
+
+
+def check_C06_factories(optree, seed):
+    """node payloads that are equal without being identical (default factories, here): `==` compares them by value, so
+    the hash must not depend on their identity"""
+    import copy
+    import pickle
+    fails = []
+    rng = random.Random(seed)
+    h = Holder()
+    value_equal = rng.random() < 0.5
+    mk = (lambda: EqFactory(rng_v)) if value_equal else (lambda: h.make)
+    rng_v = rng.randrange(3)
+    keys = rng.sample(['a', 'b', 'c', 1, 2], rng.choice([1, 2, 3]))
+
+    def tree():
+        d = defaultdict(mk(), [(k, Leafy(0)) for k in keys])
+        return rng.choice([d, [d, Leafy(1)], {'x': d}])
+    rng_state = rng.getstate()
+    t1 = tree()
+    rng.setstate(rng_state)
+    t2 = tree()
+    a, b = optree.tree_structure(t1), optree.tree_structure(t2)
+    specs = [('flatten twice', b)]
+    try:
+        specs.append(('unpickled', pickle.loads(pickle.dumps(a))))
+        specs.append(('deepcopy', copy.deepcopy(a)))
+    except Exception:  # noqa: BLE001
+        pass
+    for route, other in specs:
+        if a == other and hash(a) != hash(other):
+            fails.append({'key': 'exotic-eq-hash-payload', 'what': f'{route}: treespecs whose node payloads are equal but not identical objects compare '
+                          f'equal and hash differently', 'a': repr(a)[:200]})
+        if a == other and (len({a, other}) != 1 or {a: 1}.get(other) != 1):
+            fails.append({'key': 'exotic-eq-container', 'what': f'{route}: equal treespecs are not interchangeable as set members / dict keys', 'a': repr(a)[:200]})
+        # (a copied bound method belongs to a copied object and is a different, unequal factory)
+        if not (a == other) and (value_equal or route == 'flatten twice'):
+            fails.append({'key': 'exotic-ne-equal-payload', 'what': f'{route}: same structure with an equal default factory compares unequal', 'a': repr(a)[:200]})
     return fails
 
 
